@@ -157,9 +157,7 @@ func (b *Bytes) store(addr model.Addr, bs []byte) int {
 	}
 
 	b.blocks = append(b.blocks, byteBlock{})
-	for i := idx; i < len(b.blocks)-1; i++ {
-		b.blocks[i+1] = b.blocks[i]
-	}
+	copy(b.blocks[idx+1:], b.blocks[idx:])
 
 	b.blocks[idx] = byteBlock{
 		begin: addr,
